@@ -228,3 +228,17 @@ Proof.
   - simpl in H. destruct (intake (at_clock w clk) sd) as [w1|c]; [|discriminate]. cbn [rbind] in H. injection H as <- <-. constructor.
   - simpl in H. apply (sync_step_calls g _ order w' cs (Inv_at_clock g w clk I)); [|exact H]. intros x sd0. apply T.
 Qed.
+
+(* ------------------------------------------------------------------ echo: the engine's own objects cause no call *)
+(* sync() on behalf of a side whose object the engine made itself (a mirror: its events are the echo of the engine's
+   own create / upload) issues no provider call *)
+Theorem mirror_side_no_calls g w e en s k w' cs fl :
+  SCtx g w e en -> e_ign en = INone -> s_oid (gs en s) = Some (ostr_k k) -> g_get k (g_of g s) = None ->
+  sync_side w e s = ROk (w', cs, fl) -> cs = [].
+Proof.
+  intros SC Hign Ho Hg H. pose proof (sc_inv _ _ _ _ SC) as I. pose proof (sc_en _ _ _ _ SC) as Hn.
+  destruct (side_obj g w e en SC s _ Ho) as (k1 & ob & n & Hk1 & Hob & _ & FO & _). apply ostr_k_inj in Hk1. subst k1.
+  pose proof (mirror_no_sync g w e en SC Hign s k ob Ho Hob FO Hg) as Hns.
+  unfold sync_side in H. unfold get_e, lift, get_ent in H. rewrite Hn in H. cbn [rbind] in H.
+  rewrite (i_cfg _ _ _ I), Hns in H. cbn [negb] in H. crunch H; reflexivity.
+Qed.
